@@ -61,15 +61,15 @@ PROPS["C06"] = dict(engine="E7", level="exploration",
    design_ref="DESIGN.md 5.6", technique="runtime monitoring: snapshot comparison at synctest quiescence barriers against the reference filter applied to the parent's cache; event-replay mirrors; race detector on")
 
 PROPS["C07"] = dict(engine="E8", level="exploration",
-   rule="exhaustive: 16 parent contents (all subsets of 4 objects that the filter family distinguishes) x all ordered pairs of the 10-member filter family (equal/rebuilt-equal, overlapping, disjoint, accept-all, accept-none, FN twin) x 4 node variants (SubscribeWithFilter, SubscribeForFilter, CloneWithFilter + plain subscriber below, CloneForFilter + plain subscriber below); quick adds an equal-filter step for a third of the pairs, thorough runs every triple A->B->A'(rebuilt)->A''(equal). Each Refilter call between two quiescence barriers is one evaluation, all distinct by construction; every one is non-trivial (the delivered event multiset and the cache are compared with the exact expectation).",
+   rule="exhaustive: 16 parent contents (all subsets of 4 objects that the filter family distinguishes) x all ordered pairs of the 14-member filter family (equal/rebuilt-equal, overlapping, disjoint, accept-all, accept-none, FN twin, and a chain of NSName filters ordered by inclusion) x 4 node variants (SubscribeWithFilter, SubscribeForFilter, CloneWithFilter + plain subscriber below, CloneForFilter + plain subscriber below); quick adds an equal-filter step for a third of the pairs, thorough runs every triple A->B->A'(rebuilt)->A''(equal). Each Refilter call between two quiescence barriers is one evaluation, all distinct by construction; every one is non-trivial (the delivered event multiset and the cache are compared with the exact expectation).",
    assumptions=["no parent events in flight (the engine is the only producer and is idle around the call)"],
    floors={"any": {"refilters-with-delta": 2000, "refilters-silent": 500, "pairs": 6400}},
-   exhaustive_key="pairs", exhaustive_min=6400,
+   exhaustive_key="pairs", exhaustive_min=12544,
    level_text="Exhaustive enumeration of the stated finite family on the real filtered subscription / clone: events drained between two quiescence barriers around Refilter must be exactly one Delete per cached object the new filter rejects and one Create per newly accepted parent object, nothing else; cache == new filter over the content; equal filter silent; back to the earlier filter restores the view.",
    design_ref="DESIGN.md 5.7", technique="runtime monitoring: exact event-multiset oracle between synctest quiescence barriers around Refilter, exhaustive over contents x filter pairs x variants")
 
 PROPS["C08"] = dict(engine="E9", level="exploration",
-   rule="exhaustive over operation sequences: every word over {R parent becomes ready (at most once), E Refilter(equal), N Refilter(new), V parent event / parent cache change, S subscribe below} of length <=5 (quick: 2958 words; thorough <=6: 13198 words) x {SubscribeWithFilter, SubscribeForFilter, CloneWithFilter, CloneForFilter} x chain depth 1-3, run STEPPED (a quiescence barrier and a full judgement after every step) and UNSTEPPED (no barriers, logger perturbation on, judgement at the end; quick: words of length >=4). One evaluation = one word executed on a fresh root kit; all distinct by construction; non-trivial = the readiness automaton and content checks were evaluated for every node after the word.",
+   rule="exhaustive over operation sequences: every word over {R parent becomes ready (at most once), E Refilter(equal), N Refilter(new), V parent event / parent cache change, S subscribe below} of length <=5 (quick: 2958 words; thorough <=6: 13198 words) x {SubscribeWithFilter, SubscribeForFilter, CloneWithFilter, CloneForFilter} x chain depth 1-3 x 2 filter palettes for the 'new' filters ({l=x, Or(...)} and {accept-all, l=x}), run STEPPED (a quiescence barrier and a full judgement after every step) and UNSTEPPED (no barriers, logger perturbation on, judgement at the end; quick: words of length >=4). One evaluation = one word executed on a fresh root kit; all distinct by construction; non-trivial = the readiness automaton and content checks were evaluated for every node after the word.",
    assumptions=["the root kit only publishes after MakeReady, as a controller does", "failed-first-list clause is decided in E15 (reported under C08/ready-after-failed-first-list) and event-before-ready also by E6/E7 consumers"],
    floors={"any": {"sequences": 30000, "ready-state-checks": 100000, "content-at-readiness-checks": 20000}},
    exhaustive_key="sequences", exhaustive_min=30000,
@@ -98,14 +98,14 @@ PROPS["C12"] = dict(engine="E13", level="fault_enumeration",
    design_ref="DESIGN.md 5.12", technique="runtime monitoring with shutdown-point enumeration (logger-point failpoints), goroutine census, bounded-progress in synctest virtual time, race detector on")
 
 PROPS["C16"] = dict(engine="E16", level="exploration",
-   rule="root-kit path (engine is the only producer; every cache state and published event is known): handler duration in {instant, shorter than the producer gap, longer than the gap (backlog), blocked on a channel} x Close in {never, before ready, mid-stream at a barrier, while a callback is running, publisher stopped before ready} x monitor created before/after readiness, plus overflow runs (150-300 events, no pacing); typed path: pod.NewMonitor and pod.ToUnitary over a real typed controller and the fake server. Seeded repetitions of every combination. distinct = distinct case descriptor; non-trivial = the callback log was compared with the published stream.",
+   rule="root-kit path (engine is the only producer; every cache state and published event is known): handler duration in {instant, shorter than the producer gap, longer than the gap (backlog), blocked on a channel} x Close in {never, before ready, mid-stream at a barrier, while a callback is running, publisher stopped before ready} x monitor created before readiness / after readiness / after readiness with events already buffered in its subscription when its goroutine first runs, plus overflow runs (150-300 events, no pacing); typed path: pod.NewMonitor and pod.ToUnitary over a real typed controller and the fake server. Seeded repetitions of every combination. distinct = distinct case descriptor; non-trivial = the callback log was compared with the published stream.",
    assumptions=["exact 1:1 comparison only in runs without a logged buffer overrun; in-order-subsequence otherwise", "events published between NewMonitor and readiness do not occur (a controller never publishes before it is ready)"],
    floors={"any": {"callbacks": 3000, "exact-stream-checks": 40, "init-content-checks": 80, "no-callback-checks": 6}},
    level_text="Seeded exploration of (handler speed x close moment x creation time x typed/untyped); recording handler with enter/exit stamps: OnInitialize at most once and first, with one of the cache states between readiness and the call; callbacks 1:1 with the events published after NewMonitor returned (same type, same object pointer, same order); never two at once; none begins after Done(); none at all if the publisher stops before readiness.",
    design_ref="DESIGN.md 5.16", technique="runtime monitoring: recording monitor handler (call log, overlap counter, Done probe) vs the known published sequence and cache-state history")
 
 PROPS["C15"] = dict(engine="E3", level="exploration",
-   rule="many short concurrent histories on the real cache actor (no virtual time: real parallelism, GOMAXPROCS in {2,4,8,16}): 1-2 writers issuing 10-40 writes each (generation-stamped full lists via sync/refilter with fresh, globally increasing versions, single create/update/delete events; never duplicates or malformed versions, so the sequential model is deterministic) and 1-8 readers issuing List/Get; every call stamped from one atomic counter before invoking and after the reply. distinct = distinct history descriptor; non-trivial = the history was checked by porcupine (result Ok or Illegal, not Unknown).",
+   rule="many short concurrent histories on the real cache actor (no virtual time: real parallelism, GOMAXPROCS in {2,4,8,16}): 1-2 writers issuing 10-40 writes each (generation-stamped full lists via sync/refilter with fresh, globally increasing versions, single create/update/delete events; never duplicates or malformed versions, so the sequential model is deterministic) and 1-8 readers issuing List/Get; every call stamped from one atomic counter before invoking and after the reply. Plus 'big' histories: 24 relists/refilters of 130/257/300/1000 objects alternating between distinguishable complete states (same keys with new versions, or disjoint key sets) with 2-6 readers spinning on List(): every snapshot must be exactly one complete state, not older than the last completed one, and never go backwards. distinct = distinct history descriptor; non-trivial = the history was checked by porcupine (result Ok or Illegal, not Unknown).",
    assumptions=["sequential specification = reference model R-cache restricted to its deterministic zone; a delete event's payload object is not compared", "race freedom claim covers the executions run; collaborators in this engine share no state (logger without shared state, pure filters)", "porcupine timeout 60 s per history => inconclusive"],
    floors={"any": {"histories": 300, "linearizable": 300, "reads": 30000}},
    level_text="Exploration: recorded call/return histories of concurrent List/Get/sync/update/refilter checked for linearizability (porcupine) against a whole-map sequential model, per-reader monotonicity (single-writer runs), slice-ownership scribbling by readers, and the race detector (any report whose conflicting access is in library code is a violation).",
@@ -165,3 +165,124 @@ ENGINES = {
  "E18": dict(path="harness/engines/e18_typed_test.go", kind="typed vs untyped differential over generated facades; REST request recorder"),
 }
 NA = {}
+# ---- coverage floors (quick tier): half of what a quick run at seed 1 observes; counts that are
+# deterministic by construction (states, pairs of C07, request-checks) are exact.  A thorough run must
+# reach at least the same.  Generated from the evidence files; not tuned per seed.
+FLOORS_QUICK = {
+ "C01": {
+  "states": 232,
+  "walks": 80
+ },
+ "C02": {
+  "ops-silent": 391808,
+  "ops-with-events": 1981195,
+  "states": 232
+ },
+ "C03": {
+  "convergence-checks": 392,
+  "drain-all-phases": 51,
+  "mirror-checks": 364,
+  "per-list-checks": 112,
+  "restart-version-checks": 5474
+ },
+ "C04": {
+  "continuity-checks": 374,
+  "reconnect-version-checks": 456,
+  "reconnects": 456
+ },
+ "C05": {
+  "events-received": 325617,
+  "leaves": 1470,
+  "mid-burst-closes": 515,
+  "mid-burst-subscribers": 701
+ },
+ "C06": {
+  "filtered-node-checks": 26511,
+  "filtered-node-checks-nonempty": 14800,
+  "mirror-checks": 11605,
+  "refilters": 6402
+ },
+ "C07": {
+  "pairs": 12544,
+  "refilters-silent": 4680,
+  "refilters-with-delta": 3960
+ },
+ "C08": {
+  "content-at-readiness-checks": 55554,
+  "ready-state-checks": 565320,
+  "sequences": 52392
+ },
+ "C09": {
+  "close-cycles": 220,
+  "join-content-checks": 630,
+  "join-content-checks-nonempty": 511,
+  "join-mirror-checks": 410,
+  "ready-order-checks": 220,
+  "refilter-points": 3935
+ },
+ "C10": {
+  "blocked-monitors-checked": 44,
+  "cache-current-checks": 586,
+  "healthy-streams-checked": 222,
+  "overruns": 12520,
+  "stalled-streams-checked": 180
+ },
+ "C11": {
+  "outside-nodes-checked": 530,
+  "subtree-nodes-checked": 550,
+  "survivor-rounds": 65
+ },
+ "C12": {
+  "post-done-api-calls": 27067,
+  "racing-calls": 1488,
+  "set:trigger-points": 17,
+  "terminations": 372
+ },
+ "C13": {
+  "count-checks": 72,
+  "gap-checks": 1565,
+  "lists": 1637
+ },
+ "C14": {
+  "failstop-checks": 42,
+  "never-ready-checks": 7,
+  "not-fatal-checks": 52
+ },
+ "C15": {
+  "big-histories": 24,
+  "big-snapshots": 47232,
+  "histories": 160,
+  "linearizable": 160,
+  "reads": 23966
+ },
+ "C16": {
+  "callbacks": 2952,
+  "exact-stream-checks": 30,
+  "init-content-checks": 63,
+  "no-callback-checks": 4
+ },
+ "C17": {
+  "pairs": 2494242,
+  "pairs-reported-equal": 6579,
+  "permutation-checks": 282,
+  "rebuilt-checks": 25441
+ },
+ "C18": {
+  "accept-evaluations": 79040,
+  "composite-terms": 356
+ },
+ "C19": {
+  "accepting-evaluations": 154596,
+  "ownership-evaluations": 491321
+ },
+ "C20": {
+  "cache-comparisons": 4624,
+  "callback-comparisons": 2312,
+  "foreign-objects-in-untyped-cache": 1312,
+  "overflow-checks": 48,
+  "request-checks": 34,
+  "stream-comparisons": 6936
+ }
+}
+for _p, _f in FLOORS_QUICK.items():
+    PROPS[_p]["floors"] = {"any": _f}
